@@ -104,6 +104,11 @@ def build(run):
                 R = map_expr_dag(rules, o, compress=False, vcache=vcache)
             except ArityMismatch as ex:
                 return proved("rejected", sample=f"{name}: rejected ({ex})"[:300])
+            except TypeError as ex:
+                if "not supported between instances" in str(ex):
+                    # arguments with and without a part number: the checker's own sort refuses (a crash, not an acceptance)
+                    return proved("rejected(TypeError)", sample=f"{name}: refused ({ex})"[:300])
+                raise
             nvc = 0
             backends = set()
             for mode in ("complex", "real"):
